@@ -1,7 +1,7 @@
 """Per-property profiles of the tree pipeline (constants of the TLC runs, enabled
 operations, which predicates decide the property)."""
 
-BASE = {"Keys": {1, 2}, "Vals": {1, 2}, "MaxSeq": 5, "MaxSealed": 2, "MaxTables": 3,
+BASE = {"Keys": {1, 2}, "Vals": {1, 2, 3}, "WeakKeys": set(), "MaxSeq": 5, "MaxSealed": 2, "MaxTables": 3,
         "MaxSnaps": 0, "MaxHist": 4, "DestLevels": {0, 1, 6}, "SampleK": 1,
         "MinLen": 1, "WriteBias": 1}
 
@@ -24,7 +24,34 @@ def c(**kw):
 
 CORE_OPS = {"write", "batch", "rotate", "flush", "merge", "move", "major", "reopen"}
 
+WEAK_OPS = {"write", "rotate", "flush", "merge", "move", "major", "reopen"}
+
 PROFILES = {
+    "C13": {
+        "nkeys": 2,
+        "invariants": ALL_INV,
+        "viol_kinds": ["READ", "SCAN", "OPFAIL"],
+        "phys_count": 8, "key_alphas": [0, 2],
+        "assumptions": ASSUME,
+        "quick": {
+            "verify": {"constants": c(Keys={1}, WeakKeys={1}, Vals={1, 2, 3}, MaxSeq=7, MaxSealed=1,
+                                      MaxHist=3, DestLevels={0, 6}, Ops=WEAK_OPS)},
+            "gen": [
+                {"mode": "sim", "num": 40, "depth": 22,
+                 "constants": c(Keys={1, 2}, WeakKeys={1, 2}, Vals={1, 2, 3}, MaxSeq=16, MaxTables=5,
+                                MaxHist=20, MaxSealed=1, Ops=WEAK_OPS, WriteBias=2)},
+            ],
+        },
+        "thorough": {
+            "verify": {"constants": c(Keys={1}, WeakKeys={1}, Vals={1, 2, 3}, MaxSeq=9, MaxSealed=2,
+                                      MaxHist=3, Ops=WEAK_OPS), "timeout": 3000, "workers": 12},
+            "gen": [
+                {"mode": "sim", "num": 800, "depth": 30,
+                 "constants": c(Keys={1, 2}, WeakKeys={1, 2}, Vals={1, 2, 3}, MaxSeq=24, MaxTables=6,
+                                MaxHist=30, MaxSealed=2, Ops=WEAK_OPS, WriteBias=2)},
+            ],
+        },
+    },
     "C01": {
         "nkeys": 3,
         "invariants": ALL_INV,
